@@ -4,6 +4,8 @@ import (
 	"fmt"
 	"math"
 	"os"
+	"runtime"
+	"strings"
 	"time"
 
 	"github.com/sanonone/kektordb/pkg/core/distance"
@@ -264,4 +266,35 @@ func (w *world) outOfRange(v []float32) bool {
 		}
 	}
 	return false
+}
+
+// waitBackgroundRefine returns once every background "turbo refine" started by VImportCommit has finished its
+// refine pass (the goroutine then sleeps for 10 s before it clears the needs-refine flag). The forward binding
+// replays SEQUENTIAL histories: the next operation must not race with that pass. There is no completion signal
+// in the API, so the goroutine dump is polled: a RunTurboRefine goroutine that is inside time.Sleep is done.
+func waitBackgroundRefine() error {
+	buf := make([]byte, 1<<20)
+	deadline := time.Now().Add(20 * time.Second)
+	for {
+		n := runtime.Stack(buf, true)
+		for n == len(buf) {
+			buf = make([]byte, 2*len(buf))
+			n = runtime.Stack(buf, true)
+		}
+		busy := false
+		for _, g := range strings.Split(string(buf[:n]), "\n\n") {
+			// (a goroutine that has not run yet shows only the closure VImportCommit created it for)
+			if (strings.Contains(g, "RunTurboRefine") || strings.Contains(g, "VImportCommit.func")) && !strings.Contains(g, "time.Sleep") {
+				busy = true
+				break
+			}
+		}
+		if !busy {
+			return nil
+		}
+		if time.Now().After(deadline) {
+			return fmt.Errorf("background refine did not finish within 20s")
+		}
+		time.Sleep(50 * time.Microsecond)
+	}
 }
